@@ -600,3 +600,4 @@ package parse
 //@   ensures iff(result == nil, revsOK(n, node_nchildren(n)))
 //@   loop 0 invariant revsOK(n, loopidx+1) && forall(i, 0, loopidx+1, implies(isRev(n, i), date_key(revFull(n, i)) >= tkey(rev)))
 //@   loop 0 invariant (tkey(rev) == date_key("9999-12-31T23:59:59Z") && forall(i, 0, loopidx+1, !isRev(n, i))) || exists(i, 0, loopidx+1, isRev(n, i) && date_key(revFull(n, i)) == tkey(rev) && rev == smt("S$time.Time", "(time_of %s)", tkey(rev)))
+//@ func (Node).String
